@@ -256,6 +256,43 @@ func c13Churn(tier string, seed int64, idx int, scratch string) rt.CaseResult {
 		return ok
 	}
 	var evals atomic.Int64
+	// several hundred transactions open at the same time (more than any small cap or batch inside
+	// the registry), ended in a seeded order; each handle is probed after its end
+	{
+		lr := seqrun.Rng(seed, "C13many", idx)
+		n := 300 + lr.Intn(400)
+		open := make([]fs_db.Tx, n)
+		lv := make([]int, n)
+		for i := range open {
+			lv[i] = lr.Intn(4)
+			tx, err := env.DB.Begin(ctxBg, verif.IsoLevel(lv[i]))
+			if err != nil {
+				report("begin-failed many-open", fmt.Sprintf("Begin number %d with %d transactions open: %v", i+1, i, err), nil)
+				break
+			}
+			open[i] = tx
+		}
+		for _, i := range lr.Perm(n) {
+			if open[i] == nil || len(c.Violations) > 0 {
+				continue
+			}
+			var err error
+			end := "rollback"
+			if lr.Intn(2) == 0 {
+				end = "commit"
+				err = open[i].Commit(ctxBg)
+			} else {
+				err = open[i].Rollback(ctxBg)
+			}
+			if err != nil {
+				report("end-failed op="+end+" many-open", fmt.Sprint(err), nil)
+				break
+			}
+			evals.Add(3)
+			probe(open[i], fmt.Sprintf("right after the end, %d transactions had been open at once", n), end, lv[i])
+		}
+		c.AddDistinct(fmt.Sprintf("churn/%s/many-open", modeName(mode)))
+	}
 	for round := 0; round < rounds && len(c.Violations) == 0; round++ {
 		rt.Beat()
 		var wg sync.WaitGroup
